@@ -185,6 +185,102 @@ theorem c09_remove_axis (v : View) (k : Nat) (s : Nat → α) :
         _ = offset v.dims (idx.insertIdx k 0) := by rw [e2]
   · rw [if_neg hc, if_neg hc]; rfl
 
+/-- The storage window of a view is long enough for its layout (`from_storage_and_layout`'s
+invariant). -/
+def WF (v : View) : Prop := minDataLen v.dims ≤ v.len
+
+/-- **C09.T1 index_axis**: on a view whose storage window covers its layout, `index_axis` yields
+exactly the reference sub-array (never a storage-range panic), or both panic (axis / index out of
+range); the resulting view again covers its layout. -/
+theorem c09_index_axis (v : View) (axis index : Nat) (s : Nat → α) (hwf : WF v) :
+    (indexAxis v axis index).map (fun v' => denote v' s) = (denote v s).indexAxis axis index ∧
+    ∀ v', indexAxis v axis index = .ok v' → WF v' := by
+  unfold indexAxis NArr.indexAxis
+  have hr : (denote v s).rank = v.dims.length := by simp [NArr.rank, denote]
+  have hsh : (denote v s).shape = sizes v.dims := rfl
+  rw [hr, hsh, sizes_getD]
+  by_cases hc : axis < v.dims.length ∧ index < (v.dims.getD axis (0, 0)).1
+  · rw [if_pos hc, if_pos hc]
+    obtain ⟨hk, hi⟩ := hc
+    have hE : (v.dims.eraseIdx axis).length = v.dims.length - 1 := by
+      simp [List.length_eraseIdx, hk]
+    have hEs : ((sizes v.dims).eraseIdx axis).length = v.dims.length - 1 := by
+      simp [List.length_eraseIdx, hk]
+    have hvalid : ∀ idx, validIdx ((sizes v.dims).eraseIdx axis) idx = true →
+        validIdx (sizes v.dims) (idx.insertIdx axis index) = true := by
+      intro idx h
+      have hl := validIdx_length h
+      rw [hEs] at hl
+      rw [← insertIdx_eraseIdx_getD (sizes v.dims) axis 0 (by simpa using hk)]
+      rw [validIdx_insertIdx _ _ _ _ _ (by omega) (by omega), h, sizes_getD]
+      simp only [Bool.and_true, decide_eq_true_eq]
+      exact hi
+    have hoffs : ∀ idx, validIdx ((sizes v.dims).eraseIdx axis) idx = true →
+        (v.dims.getD axis (0, 0)).2 * index + offset (v.dims.eraseIdx axis) idx =
+          offset v.dims (idx.insertIdx axis index) := by
+      intro idx h
+      have hl := validIdx_length h
+      rw [hEs] at hl
+      have e2 := insertIdx_eraseIdx_getD v.dims axis (0, 0) hk
+      calc (v.dims.getD axis (0, 0)).2 * index + offset (v.dims.eraseIdx axis) idx
+          = index * (v.dims.getD axis (0, 0)).2 + offset (v.dims.eraseIdx axis) idx := by
+            rw [Nat.mul_comm]
+        _ = offset ((v.dims.eraseIdx axis).insertIdx axis (v.dims.getD axis (0, 0)))
+              (idx.insertIdx axis index) :=
+            (offset_insertIdx _ _ _ _ _ (by omega) (by omega)).symm
+        _ = offset v.dims (idx.insertIdx axis index) := by rw [e2]
+    by_cases he : numelD (v.dims.eraseIdx axis) = 0
+    · rw [if_pos he]
+      have hw : v.window 0 0 (v.dims.eraseIdx axis) = .ok ⟨v.base + 0, 0 - 0, v.dims.eraseIdx axis⟩ := by
+        unfold View.window; rw [if_pos ⟨Nat.zero_le _, Nat.zero_le _⟩]
+      rw [hw]
+      constructor
+      · simp only [Except.map]
+        congr 1
+        apply denote_refines v _ s (fun idx => idx.insertIdx axis index)
+        · simp only [sizes_eraseIdx]
+        · exact hvalid
+        · intro idx h
+          exfalso
+          have := numel_pos_of_valid h
+          rw [← sizes_eraseIdx] at this
+          unfold numelD at he
+          omega
+      · intro v' hv'
+        injection hv' with hv'
+        subst hv'
+        unfold WF minDataLen
+        have hz : ((sizes (v.dims.eraseIdx axis)).any (· == 0)) = true := (anyZero_iff _).mpr he
+        simp [hz]
+    · rw [if_neg he]
+      have hm := minDataLen_eraseIdx v.dims axis index hk hi he
+      unfold WF at hwf
+      have hw : v.window ((v.dims.getD axis (0, 0)).2 * index)
+          ((v.dims.getD axis (0, 0)).2 * index + minDataLen (v.dims.eraseIdx axis)) (v.dims.eraseIdx axis) =
+          .ok ⟨v.base + (v.dims.getD axis (0, 0)).2 * index,
+            (v.dims.getD axis (0, 0)).2 * index + minDataLen (v.dims.eraseIdx axis) -
+              (v.dims.getD axis (0, 0)).2 * index, v.dims.eraseIdx axis⟩ := by
+        unfold View.window; rw [if_pos ⟨by omega, by omega⟩]
+      rw [hw]
+      constructor
+      · simp only [Except.map]
+        congr 1
+        apply denote_refines v _ s (fun idx => idx.insertIdx axis index)
+        · simp only [sizes_eraseIdx]
+        · exact hvalid
+        · intro idx h
+          show v.base + _ + _ = _
+          rw [Nat.add_assoc, hoffs idx h]
+      · intro v' hv'
+        injection hv' with hv'
+        subst hv'
+        unfold WF
+        simp only []
+        omega
+  · rw [if_neg hc, if_neg hc]
+    exact ⟨rfl, fun v' h => by cases h⟩
+
+
 /-! ## T2: chains of operations compose -/
 
 /-- The view operations covered by a T1 theorem above. -/
